@@ -78,15 +78,15 @@ pub fn render(doc: &TsDoc, block: bool, seed: u64) -> String {
     e.finish().0
 }
 
-/// the user's part of a resolved document (no built-in scalars / directives) without any description and without
-/// `@deprecated`: what the declaration files must equal up to comments
+/// the source document (definitions and extensions, in source order; built-in items, if any, dropped) without any
+/// description and without `@deprecated`: what the declaration files must equal up to comments
 pub fn plain_doc(doc: &TsDoc) -> TsDoc {
     let strip = |dirs: &mut Vec<Dir>| dirs.retain(|d| d.name != "deprecated");
     let mut items = vec![];
     for it in &doc.items {
         let mut it = it.clone();
         match &mut it {
-            TsItem::TypeDef(t) => {
+            TsItem::TypeDef(t) | TsItem::TypeExt(t) => {
                 if t.name_pos.builtin || t.pos.builtin {
                     continue;
                 }
@@ -108,9 +108,9 @@ pub fn plain_doc(doc: &TsDoc) -> TsDoc {
                     strip(&mut f.dirs);
                 }
             }
-            TsItem::SchemaDef(s) => s.desc = None,
+            TsItem::SchemaDef(s) | TsItem::SchemaExt(s) => s.desc = None,
             TsItem::DirectiveDef(d) => {
-                if d.pos.builtin || d.name_pos.builtin || d.name == "nitrogql_ts_type" {
+                if d.pos.builtin || d.name_pos.builtin {
                     continue;
                 }
                 d.desc = None;
@@ -119,11 +119,26 @@ pub fn plain_doc(doc: &TsDoc) -> TsDoc {
                     strip(&mut a.dirs);
                 }
             }
-            _ => {}
         }
         items.push(it);
     }
     TsDoc { items }
+}
+
+/// the description-free version of a schema source text (parsed with the real parser, re-rendered canonically)
+pub fn plain_sdl(sdl: &str) -> Result<String, String> {
+    let parsed = catch(std::panic::AssertUnwindSafe(|| nitrogql_parser::parse_type_system_document(sdl).map(|d| from_real_tsdoc_ext(&d)).map_err(|e| format!("{e:?}")))).and_then(|x| x)?;
+    // `resolve_schema_extensions` orders the definitions by a STABLE sort on (line, column) of their keyword, the
+    // built-ins (position 0:0) inserted after the user's items: a user definition sorts before the built-ins iff it
+    // starts at 0:0. Removing the description of the first definition must not move it there (the order of the
+    // declarations in the emitted files would change, which is not what this oracle is about).
+    let first_at_origin = match parsed.items.first() {
+        Some(TsItem::TypeDef(t)) => t.pos.line == 0 && t.pos.col == 0,
+        Some(TsItem::SchemaDef(d)) => d.pos.line == 0 && d.pos.col == 0,
+        Some(TsItem::DirectiveDef(d)) => d.pos.line == 0 && d.pos.col == 0,
+        _ => false,
+    };
+    Ok(format!("{}{}", if first_at_origin { "" } else { "\n" }, nvh::render::tsdoc_text(&plain_doc(&parsed))))
 }
 
 /// does the resolved document carry any description or `@deprecated`?
